@@ -20,7 +20,8 @@ META = {
            'argument strings/views/pointers of 2 units (thorough 0..3), numeric arguments in {0,1,3} (thorough {0,1,2,3,5}); contents and all '
            'indices symbolic; aliasing arguments (the object itself / a slice of its own storage / nullptr) chosen symbolically; '
            'char, char16_t, char32_t. Memory::Copy/SetToZero: every length 0..80 bytes (quick: 12 block-boundary lengths), source and '
-           'destination at offset 1 of exact-size blocks with guard bytes on both sides, three builds',
+           'destination at offset 1 of exact-size blocks with guard bytes on both sides, plus forward-overlapping copies inside one block '
+           '(destination 1..32 bytes below the source), three builds',
  'outside': 'capacities above 4 (8 for streams), argument lengths above 3, histories are covered by induction over the representation (every '
             'pre-state is reached through the public API; pre-states with capacity > 4 are not built); self-MOVE-append (a += move(a), '
             's += move(s)) is treated as a caller error; Array::Sort (C15); the two generic operator<<(Stream_T&, ...) overloads; '
@@ -65,6 +66,13 @@ def mem_queries(tier):
                 b = {'Copy|SetToZero': it + 1, 'vf_buf.*': n + 3}
                 Q(qs, 'mem/%s/%s/L%d' % (e[2:], cfg, n), 'C14_memory.cpp', e, {'LEN': n, 'PRE': 1, 'POST': 1, 'SPRE': 1},
                   bounds=b, cflags=fl, timeout=120, mem_gb=8)
+        # forward-overlapping copy inside one block (destination below the source by SHIFT bytes)
+        for n in ([17, 33, 70] if tier == 'quick' else [1, 15, 16, 17, 31, 32, 33, 47, 48, 64, 65, 70, 80]):
+            for shift in ((1, 16) if tier == 'quick' else (1, 3, 16, 31, 32)):
+                sh = {'scalar': 0, 'sse2': 4, 'avx2': 5}[cfg]
+                it = max(n >> sh, (n & ((1 << sh) - 1)) if sh else n)
+                Q(qs, 'mem/copy_fwd/%s/L%d/s%d' % (cfg, n, shift), 'C14_memory.cpp', 'h_copy_fwd', {'LEN': n, 'SHIFT': shift},
+                  bounds={'Copy': it + 1, 'vf_buf.*': n + shift + 1}, cflags=fl, timeout=120, mem_gb=8)
     return qs
 
 AOPS = {'copy_ctor': 1, 'move_ctor': 2, 'copy_assign': 3, 'move_assign': 4, 'append_copy': 5, 'append_move': 6, 'item_copy': 7,
